@@ -1352,6 +1352,8 @@ class Interp(object):
                             return out
                         raise
                 raise Unsupported('iteration by __getitem__ did not end within 64 items')
+        if isinstance(v, slice) or v is None or v is Ellipsis or (isinstance(v, (bool, int, float)) and not isinstance(v, str)):
+            raise PyRaise(self.make_exc('TypeError', '%s object is not iterable' % type(v).__name__))
         raise Unsupported('iteration over %r' % (v,))
 
     # ---- statements
